@@ -244,6 +244,15 @@ def distributor_cases(draw):
         if trs:
             genes.append({"id": gid, "chr": gchr, "strand": strand, "transcripts": trs})
         pos += 1000
+    # ids that name the contig under test but sit on another contig (an annotation lifted to an assembly with other
+    # contig names keeps its ids): the distributor of a contig only looks at the features located on it
+    if draw(st.integers(0, 5)) == 0:
+        n_ = draw(num)
+        mg = draw(st.sampled_from(["novel_gene_%s_%d" % (chrom, n_), "GX%d" % n_]))
+        mt = "transcript%d.%s.%s" % (draw(num), chrom, draw(st.sampled_from(["nic", "nnic"])))
+        if mg not in seen_g and mt not in seen_t:
+            genes.append({"id": mg, "chr": other, "strand": "+", "misplaced": True,
+                          "transcripts": [{"id": mt, "exons": [[pos, pos + 99, None]]}]})
     n_inc = draw(st.integers(1, 25))
     ref_keys = [list(k) for k in exon_ids if k[0] == chrom]
     ops = []
@@ -300,8 +309,15 @@ def evaluate_distributor(case, ctx):
         if "novel_gene_%s_%d" % (chrom, v) in ref_g:
             hit.append("novel_gene_%s_%d" % (chrom, v))
         if hit:
+            located = {}
+            for g_ in case["genes"]:
+                located[g_["id"]] = g_["chr"]
+                for t_ in g_["transcripts"]:
+                    located[t_["id"]] = g_["chr"]
+            elsewhere = all(located.get(h) != chrom for h in hit)
             ctx.violation("C17:distributor:generated-id-exists-in-reference:" + ("gene" if hit[0].startswith("novel")
-                                                                                 else "transcript"),
+                                                                                 else "transcript") +
+                          (":reference-id-sits-on-another-contig" if elsewhere else ""),
                           {"number": v, "collides_with": hit, "chr": chrom}, case)
     # exon ids
     storage = FeatureIdStorage(SimpleIDDistributor(), db, chrom, "exon")
